@@ -19,7 +19,10 @@ import (
 	"net"
 	"os"
 	"path/filepath"
+	"runtime"
 	"sort"
+	"sync"
+	"sync/atomic"
 	"testing"
 	"time"
 
@@ -48,9 +51,12 @@ type c14rSel struct {
 	V6   bool   `json:"v6"`
 }
 type c14rCase struct {
-	Op    string      `json:"op"`
-	Files []c14rFile  `json:"files"`
-	Sels  [][]c14rSel `json:"sels"`
+	Op      string      `json:"op"`
+	Files   []c14rFile  `json:"files"`
+	Sels    [][]c14rSel `json:"sels"`
+	Workers int         `json:"workers"`
+	Rounds  int         `json:"rounds"`
+	Reloads int         `json:"reloads"`
 }
 type c14rRes struct {
 	Out     string   `json:"out"`
@@ -77,8 +83,122 @@ type c14rStep struct {
 	Ctor    string    `json:"ctor"`
 	Sel     []c14rObs `json:"sel"`
 }
+type c14rConcSel struct {
+	Seen []string `json:"seen"` // distinct (IPv4 phantom, IPv6 phantom) answers of processBdReq asking for both families
+	A    string   `json:"a"`    // the pair a selector loaded freshly from Files[0] gives for the derived seed
+	B    string   `json:"b"`
+}
 type c14rOut struct {
-	Steps []c14rStep `json:"steps"`
+	Steps   []c14rStep    `json:"steps"`
+	Conc    []c14rConcSel `json:"conc,omitempty"`
+	Reloads int           `json:"reloads"`
+	Ops     int64         `json:"ops"`
+	Stage   string        `json:"stage,omitempty"`
+}
+
+// processBdReq for BOTH families at once: "ok/<v4>/<v6>" or "err"
+func c14rPair(p *RegProcessor, s c14rSel) (out string) {
+	defer func() {
+		if e := recover(); e != nil {
+			out = fmt.Sprintf("panic:%v", e)
+		}
+	}()
+	tt := pb.TransportType_Min
+	lv, gen := uint32(s.LV), uint32(s.Gen)
+	yes := true
+	c2s := &pb.ClientToStation{ClientLibVersion: &lv, Transport: &tt, DecoyListGeneration: &gen, V4Support: &yes, V6Support: &yes,
+		DisableRegistrarOverrides: &yes}
+	rr, err := p.processBdReq(&pb.C2SWrapper{SharedSecret: c14rSecret(s), RegistrationPayload: c2s})
+	if err != nil || rr == nil {
+		return "err"
+	}
+	ip4 := make(net.IP, 4)
+	binary.BigEndian.PutUint32(ip4, rr.GetIpv4Addr())
+	return fmt.Sprintf("ok/%x/%x", []byte(ip4), rr.GetIpv6Addr())
+}
+
+func c14rFreshPair(sel *phantoms.PhantomIPSelector, s c14rSel) string {
+	keys, err := core.GenSharedKeys(s.LV, c14rSecret(s), pb.TransportType_Min)
+	if err != nil {
+		return "err"
+	}
+	a := c14rSelectOn(sel, nil, keys.ConjureSeed, c14rSel{Gen: s.Gen, LV: s.LV, V6: false})
+	b := c14rSelectOn(sel, nil, keys.ConjureSeed, c14rSel{Gen: s.Gen, LV: s.LV, V6: true})
+	if a.Out != "ok" || b.Out != "ok" {
+		return "err"
+	}
+	return fmt.Sprintf("ok/%s/%s", a.IP, b.IP)
+}
+
+// requests for both families from several goroutines while ReloadSubnets alternates between two files
+func c14rConcRun(c c14rCase, dir string, m *metrics.Metrics) (out c14rOut) {
+	paths := []string{c14rPlace(dir, "a.toml", c.Files[0]), c14rPlace(dir, "b.toml", c.Files[1])}
+	fa, erra := phantoms.SubnetsFromTomlFile(paths[0])
+	fb, errb := phantoms.SubnetsFromTomlFile(paths[1])
+	os.Setenv("PHANTOM_SUBNET_LOCATION", paths[0])
+	p, err := NewRegProcessorNoAuth("127.0.0.1", 0, m, false, nil, nil, 0, 0)
+	if err != nil || erra != nil || errb != nil {
+		out.Stage = fmt.Sprintf("setup:%v %v %v", err, erra, errb)
+		return out
+	}
+	defer p.sock.Close()
+	_ = p.AddTransport(pb.TransportType_Min, min.Transport{})
+	sels := c.Sels[0]
+	var ops int64
+	var done int32
+	var mu sync.Mutex
+	seen := make([]map[string]bool, len(sels))
+	for i := range seen {
+		seen[i] = map[string]bool{}
+	}
+	var wg sync.WaitGroup
+	for w := 0; w < c.Workers; w++ {
+		wg.Add(1)
+		go func(w int) {
+			defer wg.Done()
+			local := make([]map[string]bool, len(sels))
+			for i := range local {
+				local[i] = map[string]bool{}
+			}
+			for round := 0; round < c.Rounds || atomic.LoadInt32(&done) == 0; round++ {
+				for j := range sels {
+					i := (j + w) % len(sels)
+					local[i][c14rPair(p, sels[i])] = true
+					atomic.AddInt64(&ops, 1)
+				}
+			}
+			mu.Lock()
+			for i := range local {
+				for k := range local[i] {
+					seen[i][k] = true
+				}
+			}
+			mu.Unlock()
+		}(w)
+	}
+	out.Stage = c14rGuard(func() {
+		for k := 0; k < c.Reloads; k++ {
+			start := atomic.LoadInt64(&ops)
+			for spin := 0; atomic.LoadInt64(&ops) < start+int64(2*c.Workers) && spin < 1000000; spin++ {
+				runtime.Gosched()
+			}
+			os.Setenv("PHANTOM_SUBNET_LOCATION", paths[(k+1)%2])
+			_ = p.ReloadSubnets()
+			out.Reloads++
+		}
+	})
+	atomic.StoreInt32(&done, 1)
+	wg.Wait()
+	out.Ops = atomic.LoadInt64(&ops)
+	for i, s := range sels {
+		cs := c14rConcSel{A: c14rFreshPair(fa, s), B: c14rFreshPair(fb, s)}
+		for k := range seen[i] {
+			cs.Seen = append(cs.Seen, k)
+		}
+		sort.Strings(cs.Seen)
+		out.Conc = append(out.Conc, cs)
+	}
+	return out
 }
 
 func c14rGuard(f func()) (out string) {
@@ -210,6 +330,11 @@ func c14rPlace(dir, name string, f c14rFile) string {
 
 func c14rRun(c c14rCase, dir string, m *metrics.Metrics) (out c14rOut) {
 	var p *RegProcessor
+	defer func() {
+		if p != nil && p.sock != nil {
+			_ = p.sock.Close()
+		}
+	}()
 	var fresh *phantoms.PhantomIPSelector
 	inforce := -1
 	for i, f := range c.Files {
@@ -308,7 +433,11 @@ func TestVerifC14Registrar(t *testing.T) {
 	m := metrics.NewMetrics(log.NewEntry(quiet), time.Hour)
 	res := make([]c14rOut, len(cases))
 	for i, c := range cases {
-		res[i] = c14rRun(c, t.TempDir(), m)
+		if c.Op == "lifeconc" {
+			res[i] = c14rConcRun(c, t.TempDir(), m)
+		} else {
+			res[i] = c14rRun(c, t.TempDir(), m)
+		}
 	}
 	out, _ := json.Marshal(res)
 	if err := os.WriteFile(os.Getenv("VERIF_OUT"), out, 0o644); err != nil {
